@@ -89,6 +89,10 @@ struct UdpSock {
     waker: Option<Waker>,
     pending_refused: bool,
     life_idx: usize,
+    /// Bound by the harness (clients, probes), not by the code under test.
+    harness: bool,
+    recv_n: u64,
+    send_n: u64,
 }
 
 #[derive(Clone, Debug)]
@@ -157,6 +161,10 @@ pub struct NetState {
     /// Every destination the host tried to reach, successful or not.
     pub dests: Vec<DestAttempt>,
     pub lives: Vec<SockLife>,
+    /// Peers a `send_to` of the code under test failed for (injected error).
+    pub send_failed_to: Vec<SocketAddr>,
+    /// Labels of connections an injected accept error aborted.
+    pub accept_aborted: Vec<String>,
 }
 
 impl NetState {
@@ -224,7 +232,7 @@ impl UdpSocket {
         let addr = resolve_addr(addr)?;
         world::with(|w| {
             let label = w.next_label("u");
-            udp_bind(w, addr, label)
+            udp_bind(w, addr, label, false)
         })
     }
 
@@ -234,7 +242,7 @@ impl UdpSocket {
     ///
     /// If the port is taken.
     pub fn bind_labeled(addr: SocketAddr, label: &str) -> io::Result<UdpSocket> {
-        world::with(|w| udp_bind(w, addr, label.to_string()))
+        world::with(|w| udp_bind(w, addr, label.to_string(), true))
     }
 
     /// # Errors
@@ -298,6 +306,27 @@ impl UdpSocket {
     #[allow(clippy::unused_async)]
     pub async fn send_to<A: ToSocketAddrs>(&self, buf: &[u8], target: A) -> io::Result<usize> {
         let target = resolve_addr(target)?;
+        // an unusual but legal outcome for the code under test: the send fails
+        // (ENOBUFS, EPERM from a firewall, ENETUNREACH) and nothing leaves
+        let failed = world::with(|w| {
+            let Some(sock) = w.net.udp.get_mut(&self.id) else { return false };
+            if sock.harness {
+                return false;
+            }
+            sock.send_n += 1;
+            let entity = format!("{}#s{}", sock.label, sock.send_n);
+            if w.choose("udp.send_error", &entity, 2) == 1 {
+                w.bump("fired.udp.send_error");
+                w.log_event("udp.send_error", &format!("{entity} -> {target}"));
+                w.net.send_failed_to.push(target);
+                true
+            } else {
+                false
+            }
+        });
+        if failed {
+            return Err(io::Error::new(io::ErrorKind::Other, "injected send error"));
+        }
         udp_send_from_sock(self.id, target, buf.to_vec());
         Ok(buf.len())
     }
@@ -326,6 +355,19 @@ impl UdpSocket {
                         "connection refused",
                     )));
                 }
+                // an unusual but legal outcome on a listening socket of the code
+                // under test: the call fails once (ENOMEM, ENOBUFS, an ICMP error
+                // surfacing) although a datagram is waiting; it stays queued
+                if !sock.harness && sock.peer.is_none() && !sock.queue.is_empty() {
+                    sock.recv_n += 1;
+                    let entity = format!("{}#r{}", sock.label, sock.recv_n);
+                    if w.choose("udp.recv_error", &entity, 2) == 1 {
+                        w.bump("fired.udp.recv_error");
+                        w.log_event("udp.recv_error", &entity);
+                        return Poll::Ready(Err(io::Error::new(io::ErrorKind::Other, "injected receive error")));
+                    }
+                }
+                let sock = w.net.udp.get_mut(&id).expect("udp socket gone");
                 if let Some((data, from)) = sock.queue.pop_front() {
                     let n = data.len().min(buf.len());
                     buf[..n].copy_from_slice(&data[..n]);
@@ -365,7 +407,7 @@ impl Drop for UdpSocket {
     }
 }
 
-fn udp_bind(w: &mut World, mut addr: SocketAddr, label: String) -> io::Result<UdpSocket> {
+fn udp_bind(w: &mut World, mut addr: SocketAddr, label: String, harness: bool) -> io::Result<UdpSocket> {
     if addr.port() == 0 {
         addr.set_port(w.net.alloc_port());
     } else if w.net.udp_by_port.contains_key(&addr.port()) {
@@ -391,6 +433,9 @@ fn udp_bind(w: &mut World, mut addr: SocketAddr, label: String) -> io::Result<Ud
             waker: None,
             pending_refused: false,
             life_idx,
+            harness,
+            recv_n: 0,
+            send_n: 0,
         },
     );
     Ok(UdpSocket { id })
@@ -1091,6 +1136,7 @@ impl TcpListener {
                     if fault == 1 {
                         w.bump("fired.tcp.accept_error");
                         w.log_event("tcp.accept_error", &label);
+                        w.net.accept_aborted.push(label.clone());
                         // the connection is gone, as with ECONNABORTED
                         if let Some(c) = w.net.conns.get_mut(&conn) {
                             c.a2b.reader_gone = true;
